@@ -120,6 +120,7 @@ var c13Prec = map[string]int{
 type c13Gen struct {
 	rng   *rand.Rand
 	depth int // closure depth (for `#`)
+	kw    bool // keyword-prefix mode (names are printed through c13KwAlias)
 	noArr int // > 0 while generating the collection of a builtin: an array literal is []interface{} and would make `#` untyped
 }
 
@@ -274,6 +275,9 @@ func (g *c13Gen) gen(typ string, d int) *c13Node {
 		case 1:
 			return c13Bin("bool", g.pick("and", "or", "&&", "||"), g.gen("bool", d-1), g.gen("bool", d-1))
 		case 2:
+			if g.kw && g.rng.Intn(3) > 0 {
+				return c13Un("bool", "not", g.leaf("bool"))
+			}
 			return c13Un("bool", g.pick("not", "!"), g.gen("bool", d-1))
 		case 3:
 			return c13Bin("bool", g.pick("in", "not in"), g.gen("int", d-1), g.gen("ints", d-1))
@@ -342,6 +346,42 @@ func (g *c13Gen) closureOf(typ string, d int) *c13Node {
 type c13Printer struct {
 	toks []*c13Tok
 	rng  *rand.Rand
+	kw   bool // keyword-prefix mode: every name is printed through c13KwAlias (the env is c13KwEnv)
+}
+
+// In keyword-prefix mode every variable and function is spelled with a name that begins with (or is a
+// keyword operator plus a suffix of) one of the word operators in / not / or / and / matches / contains /
+// startsWith / endsWith.  The lexer looks ahead after `not` for the word `in` and classifies words by
+// exact match only; a position slip on those paths shows as a wrong column of every later token.
+var c13KwAlias = map[string]string{
+	"A": "index", "B": "in_var", "C": "order", "Z": "notes", "Big": "android", "Neg": "inNeg",
+	"X": "matchesX", "Y": "containsY", "S": "startsWithS", "T": "endsWithT", "Ünï": "inÜnï",
+	"Ok": "inStock", "No": "note", "Arr": "inArr", "Strs": "orders", "In": "inner", "P": "notP", "Re": "orRe",
+	"Add": "andAdd", "Upper": "inUpper", "Boom": "orBoom",
+}
+
+// c13KwDyn: the interface-typed values live in a map so that their static type stays interface{}
+var c13KwDyn = map[string]string{"Any": "note", "AnyI": "index"}
+
+func c13KwEnv() map[string]interface{} {
+	e := c13MakeEnv()
+	return map[string]interface{}{
+		"index": e.A, "in_var": e.B, "order": e.C, "notes": e.Z, "android": e.Big, "inNeg": e.Neg,
+		"matchesX": e.X, "containsY": e.Y, "startsWithS": e.S, "endsWithT": e.T, "inÜnï": e.Ünï,
+		"inStock": e.Ok, "note": e.No, "inArr": e.Arr, "orders": e.Strs, "inner": e.In, "notP": e.P, "orRe": e.Re,
+		"andAdd": func(a, b int) int { return a + b }, "inUpper": strings.ToUpper,
+		"orBoom": func(n int) int { panic("boom") },
+		"dyn": map[string]interface{}{"note": e.Any, "index": e.AnyI},
+	}
+}
+
+func (p *c13Printer) name(s string) string {
+	if p.kw {
+		if a, ok := c13KwAlias[s]; ok {
+			return a
+		}
+	}
+	return s
 }
 
 func (p *c13Printer) tok(text string, kind byte) *c13Tok {
@@ -439,7 +479,13 @@ func (p *c13Printer) emit(n *c13Node) {
 			n.def = p.tok(n.text, 'w')
 		}
 	case "id":
-		n.def = p.tok(n.text, 'w')
+		if m, ok := c13KwDyn[n.text]; ok && p.kw {
+			p.tok("dyn", 'w')
+			p.tok(".", '.')
+			n.def = p.tok(m, 'w')
+		} else {
+			n.def = p.tok(p.name(n.text), 'w')
+		}
 	case "ptr":
 		n.def = p.tok("#", 'o')
 	case "bin":
@@ -467,7 +513,7 @@ func (p *c13Printer) emit(n *c13Node) {
 		p.tok(":", 'o')
 		p.emitOpen(n.kids[2])
 	case "call":
-		n.def = p.tok(n.text, 'w')
+		n.def = p.tok(p.name(n.text), 'w')
 		p.args(n.kids)
 	case "method":
 		p.recv(n.kids[0])
@@ -518,14 +564,23 @@ func (p *c13Printer) emit(n *c13Node) {
 var c13Blanks = []string{" ", " ", " ", "  ", "\t", "\n", "\n  ", " \n", "\r\n", "\n\t"}
 
 // layout joins the tokens with random white space and fills in offsets, lines and columns
-func c13Layout(toks []*c13Tok, rng *rand.Rand, multiline bool) string {
+func c13Layout(toks []*c13Tok, rng *rand.Rand, multiline bool, kw bool) string {
 	var sb []rune
 	blank := func(must bool) {
 		if !must && rng.Intn(3) > 0 {
 			return
 		}
 		b := " "
-		if multiline {
+		if kw {
+			// 1..3 blanks, mostly on the same line: a column slip is visible only further right on the line
+			b = ""
+			for i, n := 0, 1+rng.Intn(3); i < n; i++ {
+				b += []string{" ", " ", " ", " ", "\t", "\t", "\n"}[rng.Intn(7)]
+			}
+			if !multiline {
+				b = strings.Replace(b, "\n", " ", -1)
+			}
+		} else if multiline {
 			b = c13Blanks[rng.Intn(len(c13Blanks))]
 		} else if rng.Intn(4) == 0 {
 			b = "  "
@@ -627,7 +682,7 @@ func (o *c13Orc) judge(cs *c13Case, rep c13Report) {
 	for _, a := range cs.accept {
 		want = append(want, fmt.Sprintf("%d:%d", a.line, a.col))
 	}
-	in := map[string]interface{}{"kind": cs.kind, "api": rep.api, "source": cs.src, "occurrence": cs.what, "accept": want}
+	in := map[string]interface{}{"kind": cs.kind, "api": rep.api, "source": cs.src, "occurrence": cs.what, "accept": want, "kwenv": o.kw}
 	expect := "a *file.Error located at " + strings.Join(want, " or ") + " (line:0-based column of " + cs.what + "), inside the source, snippet = that source line"
 	viol := func(key, what string) {
 		o.keys[key]++
@@ -747,7 +802,17 @@ type c13Orc struct {
 	c        *Ctx
 	keys     map[string]int
 	lexKinds map[string]bool
-	env      c13Env
+	env      interface{} // the environment of the current mode: c13Env, or c13KwEnv() in keyword-prefix mode
+	kw       bool
+}
+
+func (o *c13Orc) setMode(kw bool) {
+	o.kw = kw
+	if kw {
+		o.env = c13KwEnv()
+	} else {
+		o.env = c13MakeEnv()
+	}
 }
 
 // ---- collecting nodes --------------------------------------------------------------------------
@@ -784,12 +849,16 @@ func (o *c13Orc) choose(rng *rand.Rand, xs []*c13Node) *c13Node {
 }
 
 var c13UnknownNames = []string{"Zzq", "Ünbekannt", "missing_1", "Größe2", "naïveName"}
+var c13KwUnknownNames = []string{"inUnknown", "notThere", "orelse", "index9", "andMore", "matchesNothing", "containsZ", "in_"}
 
 // inject mutates the tree for a checker-level fault; returns the node whose token is the occurrence
 // and a description, or nil when the tree offers no place for this kind.
 func (o *c13Orc) inject(kind string, root *c13Node, g *c13Gen) (*c13Node, string) {
 	rng := g.rng
 	unknown := c13UnknownNames[rng.Intn(len(c13UnknownNames))]
+	if o.kw {
+		unknown = c13KwUnknownNames[rng.Intn(len(c13KwUnknownNames))]
+	}
 	switch kind {
 	case "unknown-ident":
 		n := o.choose(rng, c13Collect(root, func(n *c13Node) bool { return n.k == "id" }))
@@ -918,6 +987,71 @@ func (o *c13Orc) asOption(typ string) (expr.Option, string) {
 	return nil, ""
 }
 
+// kwPrefix puts, in keyword-prefix mode, `not <name> ? x : root` or `8 not in <name> ? x : root` in
+// front of the expression (both conditions are false: root is what gets evaluated), so that the fault
+// lies to the right of the lexer's `not` look-ahead, often on the same line
+func (o *c13Orc) kwPrefix(root *c13Node, g *c13Gen) *c13Node {
+	if !o.kw || g.rng.Intn(3) == 0 {
+		return root
+	}
+	switch root.typ {
+	case "int", "float", "str", "bool", "ints", "strs":
+	default:
+		return root
+	}
+	var c *c13Node
+	if g.rng.Intn(2) == 0 {
+		c = c13Un("bool", "not", c13Id("bool", "Ok"))
+	} else {
+		c = c13Bin("bool", "not in", c13Lit("int", "8"), c13Id("ints", "Arr"))
+	}
+	return c13Cond(root.typ, c, g.leaf(root.typ), root)
+}
+
+// noteKw counts, in keyword-prefix mode, where the keyword-prefixed names stand and whether the fault
+// lies on or to the right of one on the same line
+func (o *c13Orc) noteKw(toks []*c13Tok, accept []c13Pos) {
+	if !o.kw {
+		return
+	}
+	r := o.c.R
+	isKwName := func(t *c13Tok) bool {
+		if t.kind != 'w' {
+			return false
+		}
+		if _, op := c13Prec[t.text]; op || t.text == "not" {
+			return false
+		}
+		for _, k := range []string{"in", "not", "or", "and", "matches", "contains", "startsWith", "endsWith"} {
+			if strings.HasPrefix(t.text, k) {
+				return true
+			}
+		}
+		return false
+	}
+	for i, t := range toks {
+		if !isKwName(t) {
+			continue
+		}
+		if i > 0 {
+			switch prev := toks[i-1]; {
+			case prev.text == "not":
+				r.Count("kw:name-after-not", 1)
+			case prev.text == "not in":
+				r.Count("kw:name-after-not-in", 1)
+			case prev.kind == 'w' && c13Prec[prev.text] > 0:
+				r.Count("kw:name-after-word-operator", 1)
+			}
+		}
+		for _, a := range accept {
+			if a.line == t.line && a.col >= t.col {
+				r.Count("kw:fault-right-of-keyword-name", 1)
+				break
+			}
+		}
+	}
+}
+
 func (o *c13Orc) noteSource(src string) {
 	r := o.c.R
 	multi := len(src) != len([]rune(src))
@@ -934,14 +1068,22 @@ func (o *c13Orc) noteSource(src string) {
 func (o *c13Orc) checkerFault(kind string, seed int64) bool {
 	r := o.c.R
 	rng := rand.New(rand.NewSource(seed))
-	g := &c13Gen{rng: rng}
+	g := &c13Gen{rng: rng, kw: o.kw}
 	typ := g.pick("int", "bool", "str", "float", "int", "bool")
 	root := g.gen(typ, 1+rng.Intn(4))
 	// baseline: the unmodified expression must compile
-	pb := &c13Printer{rng: rand.New(rand.NewSource(seed + 1))}
+	pb := &c13Printer{rng: rand.New(rand.NewSource(seed + 1)), kw: o.kw}
 	pb.emitOpen(root)
-	base := c13Layout(pb.toks, rand.New(rand.NewSource(seed+2)), true)
-	if _, err := expr.Compile(base, expr.Env(o.env)); err != nil {
+	base := c13Layout(pb.toks, rand.New(rand.NewSource(seed+2)), true, o.kw)
+	bprog, err := expr.Compile(base, expr.Env(o.env))
+	if err == nil {
+		starts := map[c13Pos]bool{}
+		for _, t := range pb.toks {
+			starts[c13PosOfTok(t)] = true
+		}
+		o.locMap(&c13Case{kind: "baseline", src: base}, bprog, starts, "baseline")
+	}
+	if err != nil {
 		r.Count("gen:baseline-rejected", 1)
 		if r.Counters["gen:baseline-rejected"] <= 3 {
 			r.Note("baseline rejected: %q: %v", base, err)
@@ -953,18 +1095,21 @@ func (o *c13Orc) checkerFault(kind string, seed int64) bool {
 	if occ == nil {
 		return false
 	}
-	p := &c13Printer{rng: rand.New(rand.NewSource(seed + 3))}
+	rootTyp := root.typ
+	root = o.kwPrefix(root, g)
+	p := &c13Printer{rng: rand.New(rand.NewSource(seed + 3)), kw: o.kw}
 	p.emitOpen(root)
-	src := c13Layout(p.toks, rand.New(rand.NewSource(seed+4)), rng.Intn(5) > 0)
+	src := c13Layout(p.toks, rand.New(rand.NewSource(seed+4)), rng.Intn(5) > 0, o.kw)
 	cs := &c13Case{kind: kind, src: src, accept: []c13Pos{c13PosOfTok(occ.def)}, what: what}
 	o.noteSource(src)
+	o.noteKw(p.toks, cs.accept)
 	r.Count("fault:"+kind, 1)
 	env := o.env
 	o.judge(cs, c13Call("Compile", func() error { _, err := expr.Compile(src, expr.Env(env)); return err }))
 	if kind != "const-div-zero" {
 		o.judge(cs, c13Call("Compile+Optimize(false)", func() error { _, err := expr.Compile(src, expr.Env(env), expr.Optimize(false)); return err }))
 	}
-	if opt, name := o.asOption(root.typ); opt != nil {
+	if opt, name := o.asOption(rootTyp); opt != nil {
 		o.judge(cs, c13Call("Compile+"+name, func() error { _, err := expr.Compile(src, expr.Env(env), opt); return err }))
 		r.Count("fault-with-expect:"+kind, 1)
 	}
@@ -975,10 +1120,10 @@ func (o *c13Orc) checkerFault(kind string, seed int64) bool {
 func (o *c13Orc) syntaxFault(kind string, seed int64) bool {
 	r := o.c.R
 	rng := rand.New(rand.NewSource(seed))
-	g := &c13Gen{rng: rng}
+	g := &c13Gen{rng: rng, kw: o.kw}
 	typ := g.pick("int", "bool", "str", "float")
-	root := g.gen(typ, 1+rng.Intn(4))
-	p := &c13Printer{rng: rand.New(rand.NewSource(seed + 3))}
+	root := o.kwPrefix(g.gen(typ, 1+rng.Intn(4)), g)
+	p := &c13Printer{rng: rand.New(rand.NewSource(seed + 3)), kw: o.kw}
 	p.emitOpen(root)
 	toks := p.toks
 	cs := &c13Case{kind: kind}
@@ -1123,7 +1268,7 @@ func (o *c13Orc) syntaxFault(kind string, seed int64) bool {
 			return out
 		}
 	}
-	cs.src = c13Layout(toks, rand.New(rand.NewSource(seed+4)), rng.Intn(5) > 0)
+	cs.src = c13Layout(toks, rand.New(rand.NewSource(seed+4)), rng.Intn(5) > 0, o.kw)
 	if kind == "unterminated-string" {
 		// the literal must not be closed by a later quote on the same line
 		var last *c13Tok
@@ -1142,6 +1287,7 @@ func (o *c13Orc) syntaxFault(kind string, seed int64) bool {
 	}
 	cs.accept = accept()
 	o.noteSource(cs.src)
+	o.noteKw(toks, cs.accept)
 	r.Count("fault:"+kind, 1)
 	src, env := cs.src, o.env
 	o.judge(cs, c13Call("Parse", func() error { _, err := parser.Parse(src); return err }))
@@ -1387,15 +1533,16 @@ func (o *c13Orc) wrap(n *c13Node, g *c13Gen) *c13Node {
 func (o *c13Orc) runtimeFault(kind string, seed int64) bool {
 	r := o.c.R
 	rng := rand.New(rand.NewSource(seed))
-	g := &c13Gen{rng: rng}
+	g := &c13Gen{rng: rng, kw: o.kw}
 	atom, accept, what := o.failingAtom(kind, g)
 	root := atom
 	for i, n := 0, rng.Intn(4); i < n; i++ {
 		root = o.wrap(root, g)
 	}
-	p := &c13Printer{rng: rand.New(rand.NewSource(seed + 3))}
+	root = o.kwPrefix(root, g)
+	p := &c13Printer{rng: rand.New(rand.NewSource(seed + 3)), kw: o.kw}
 	p.emitOpen(root)
-	src := c13Layout(p.toks, rand.New(rand.NewSource(seed+4)), rng.Intn(5) > 0)
+	src := c13Layout(p.toks, rand.New(rand.NewSource(seed+4)), rng.Intn(5) > 0, o.kw)
 	cs := &c13Case{kind: kind, src: src, accept: accept(), what: what}
 	env := o.env
 	// the typed pipeline must accept the program: it is well typed by construction
@@ -1408,6 +1555,7 @@ func (o *c13Orc) runtimeFault(kind string, seed int64) bool {
 		return false
 	}
 	o.noteSource(src)
+	o.noteKw(p.toks, cs.accept)
 	r.Count("fault:"+kind, 1)
 	tokStarts := map[c13Pos]bool{}
 	for _, t := range p.toks {
@@ -1523,6 +1671,7 @@ func (o *c13Orc) replay(path string) {
 		Violation struct {
 			Input struct {
 				Kind, Api, Source, Occurrence string
+				Kwenv                         bool
 				Accept                        []string
 			} `json:"input"`
 		} `json:"violation"`
@@ -1539,6 +1688,7 @@ func (o *c13Orc) replay(path string) {
 		cs.accept = append(cs.accept, p)
 	}
 	o.noteSource(cs.src)
+	o.setMode(in.Kwenv)
 	o.judge(cs, o.runAPI(in.Api, in.Source))
 }
 
@@ -1556,34 +1706,37 @@ func c13Oracle(c *Ctx) {
 		per = 1500
 	}
 	seed := func() int64 { return c.Rng.Int63() }
-	for _, k := range c13CheckKinds {
-		for n, tries := 0, 0; n < per && tries < per*20; tries++ {
-			if o.checkerFault(k, seed()) {
-				n++
+	for _, kw := range []bool{false, true} {
+		o.setMode(kw)
+		want := per
+		if kw {
+			want = per / 2 // the same kinds again with every name spelled with a keyword-operator prefix
+		}
+		runKind := func(f func(string, int64) bool, kinds []string) {
+			for _, k := range kinds {
+				for n, tries := 0, 0; n < want && tries < want*20; tries++ {
+					if f(k, seed()) {
+						n++
+						if kw {
+							r.Count("kw:cases", 1)
+						}
+					}
+				}
 			}
 		}
+		runKind(o.checkerFault, c13CheckKinds)
+		runKind(o.syntaxFault, c13SyntaxKinds)
+		runKind(o.runtimeFault, c13RunKinds)
 	}
-	for _, k := range c13SyntaxKinds {
-		for n, tries := 0, 0; n < per && tries < per*20; tries++ {
-			if o.syntaxFault(k, seed()) {
-				n++
-			}
-		}
-	}
-	for _, k := range c13RunKinds {
-		for n, tries := 0, 0; n < per && tries < per*20; tries++ {
-			if o.runtimeFault(k, seed()) {
-				n++
-			}
-		}
-	}
+	o.setMode(false)
 	// a silent generator regression must not look like a pass
 	for _, k := range append(append(append([]string{}, c13CheckKinds...), c13SyntaxKinds...), c13RunKinds...) {
 		if r.Counters["fault:"+k] < per/2 {
 			r.Mismatch("generator", "fault:"+k, fmt.Sprintf("at least %d cases", per/2), fmt.Sprint(r.Counters["fault:"+k]))
 		}
 	}
-	for _, k := range []string{"expr:multibyte", "expr:multiline", "rt:decoys", "snippet:with-caret", "snippet:line-only", "locmap:entries"} {
+	for _, k := range []string{"expr:multibyte", "expr:multiline", "rt:decoys", "snippet:with-caret", "snippet:line-only", "locmap:entries",
+		"kw:cases", "kw:name-after-not", "kw:name-after-not-in", "kw:name-after-word-operator", "kw:fault-right-of-keyword-name"} {
 		if r.Counters[k] == 0 {
 			r.Mismatch("generator", k, "no case generated", "")
 		}
